@@ -140,12 +140,13 @@ void explore_cfg(const Cfg<Db>& cfg, const std::vector<Op>& alphabet, int depth,
   auto hist_text = [&](const std::vector<uint16_t>& h, uint16_t a) {
     std::string s; for (uint16_t x : h) s += describe(cfg, alphabet[x]) + " ; "; return s + describe(cfg, alphabet[a]);
   };
-  auto before = [&](const std::vector<uint16_t>& h, uint16_t a) { iso_note(fmt("world=%s/%s slots=%d history: %s", Db::tag(), kname, cfg.nslots, hist_text(h, a).c_str())); };
+  // per-step watchdog: a single library call that does not return within 60 s is a hang (the world as a whole may take long)
+  auto before = [&](const std::vector<uint16_t>& h, uint16_t a) { alarm(60); iso_note(fmt("world=%s/%s slots=%d history: %s", Db::tag(), kname, cfg.nslots, hist_text(h, a).c_str())); };
   auto mismatch = [&](const std::vector<uint16_t>& h, uint16_t a, const std::string& got, const std::string& want) {
     violation(g_pid + ":" + Db::tag() + ":" + kname + ":history-dependent:" + OPN[alphabet[a].opc],
         fmt("{\"world\":\"%s\",\"slots\":%d,\"history\":%s,\"got\":%s,\"fresh_object\":%s}", kname, cfg.nslots, jstr(hist_text(h, a)).c_str(), jstr(got).c_str(), jstr(want).c_str()));
   };
-  McStats st = explore<World<Db>, Cfg<Db>, Op>(cfg, alphabet, depth, expected, mismatch, before);
+  McStats st = explore<World<Db>, Cfg<Db>, Op>(cfg, alphabet, depth, expected, mismatch, before, 250000);
   c.add("states", st.states); c.add("transitions", st.transitions); c.add("executions", st.executions); c.add("worlds");
   c.add(st.fixpoint ? "worlds_explored_to_fixpoint" : "worlds_cut_at_depth_bound");
   c.add("distinct_observations", st.distinct_obs);
@@ -165,7 +166,7 @@ void stateless_cfg(const Cfg<Db>& cfg, const std::vector<Op>& alphabet, int dept
     std::string r = observe(t, op.opc, g_args[op.arg]); memo[mk] = r; return r;
   };
   auto hist_text = [&](const std::vector<uint16_t>& h, uint16_t a) { std::string s; for (uint16_t x : h) s += describe(cfg, alphabet[x]) + " ; "; return s + describe(cfg, alphabet[a]); };
-  auto before = [&](const std::vector<uint16_t>& h, uint16_t a) { iso_note(fmt("world=%s/%s slots=%d (stateless) history: %s", Db::tag(), kname, cfg.nslots, hist_text(h, a).c_str())); };
+  auto before = [&](const std::vector<uint16_t>& h, uint16_t a) { alarm(60); iso_note(fmt("world=%s/%s slots=%d (stateless) history: %s", Db::tag(), kname, cfg.nslots, hist_text(h, a).c_str())); };
   auto mismatch = [&](const std::vector<uint16_t>& h, uint16_t a, const std::string& got, const std::string& want) {
     violation(g_pid + ":" + Db::tag() + ":" + kname + ":history-dependent:" + OPN[alphabet[a].opc],
         fmt("{\"world\":\"%s\",\"slots\":%d,\"exploration\":\"stateless\",\"history\":%s,\"got\":%s,\"fresh_object\":%s}", kname, cfg.nslots, jstr(hist_text(h, a)).c_str(), jstr(got).c_str(), jstr(want).c_str()));
@@ -247,7 +248,7 @@ template <class Db> void run_db(const Args& a, Counters& c, int& item) {
   for (auto& j : jobs) {
     if ((item++ % a.nshards) != a.shard) continue;
     Counters cc;
-    run_isolated(1, 600, [&](long) { g_viol_per_key.clear(); explore_cfg<Db>(j.cfg, j.alpha, j.depth, j.kname, cc); if (j.sdepth) stateless_cfg<Db>(j.cfg, j.salpha, j.sdepth, j.kname, cc); cc.emit(); emit_violation_totals(); },
+    run_isolated(1, 86400, [&](long) { g_viol_per_key.clear(); explore_cfg<Db>(j.cfg, j.alpha, j.depth, j.kname, cc); if (j.sdepth) stateless_cfg<Db>(j.cfg, j.salpha, j.sdepth, j.kname, cc); cc.emit(); emit_violation_totals(); },
       [&](long, int status) {
         const char* how = WIFSIGNALED(status) && WTERMSIG(status) == SIGALRM ? "hang" : "crash";
         violation(g_pid + ":" + Db::tag() + ":" + j.kname + ":" + how, fmt("{\"wait_status\":%d,\"last_step\":%s}", status, jstr(iso_last_note()).c_str()));
